@@ -46,14 +46,20 @@ RULE = ("A case is a loop nest plus a collection configuration. Part 'kernels': 
         "explicit zeros, empty sub-fibers, empty roots) = nests of depth 1-4 loop ranks. Part 'opnests': one operator "
         "(for..in a | a & b | leader-follower(a, b) | z << a | z << (a & b) | z << leader-follower(a, b) | "
         "a.project(k -> mul*k+off, interval, start_pos, rank_id)) at the leaf rank, optionally "
-        "below one plain outer loop (1-3 instances with their own operands), leaf fibers with explicit zeros or no "
+        "below one outer loop -- a plain loop over D[X], or a dense by-reference walk (iterShapeRef / "
+        "iterActiveShapeRef with a drawn active range / iterRangeShapeRef with drawn start, end, step) of D[X] or of "
+        "the 2-rank output Z[X, K] whose fibers are then the populate destinations -- (1-4 instances with their own "
+        "operands), leaf fibers with explicit zeros or no "
         "element at all, a destination that may be pre-populated (explicit zeros too) and shared between the "
         "instances, and a body plan (+=, <<= v, <<= 0, leave alone) per offered coordinate. Part 'flattened': the same "
         "operators (without project) at rank N below plain loops over an operand A[(X,) M, K, N] whose ranks M, K were "
         "flattened (Tensor.flattenRanks(depth 0 or 1, levels=1): tuple coordinates (m, k)), the flattened rank renamed "
         "'MK' with setRankIds and its shape registered with Metrics.associateShape((M, K)); every point column of the "
         "flattened rank -- in its own iter rows and as outer coordinate of the rows of rank N -- must be the row-major "
-        "integer m*K + k. Configuration: an order of "
+        "integer m*K + k. Configuration: optionally an earlier, unrelated collection under the SAME file prefix "
+        "(every rank registered, one row in every trace file), the order in which the file and the consumable form of "
+        "each trace are requested (file first / consumable first / alternating), all sessions of a case share one "
+        "prefix; an order of "
         "the flush thresholds {2,3,5,1000}, 0-n loop ranks registered up front, consumable traces drained at the end "
         "or after every outermost body. Every session registers iter and the labels 0-5 of intersect_, populate_, "
         "populate_read_, populate_write_, project_ on every loop rank (and on a project's source rank); the first "
@@ -85,6 +91,8 @@ ASSUMPTIONS = ["operands, destinations and the output are built / tiled / swizzl
                "examined",
                "destinations are created with a shape (the populate operator asserts an authoritative shape when it "
                "inserts while collecting)",
+               "a dense by-reference walk reads no element: the rows of its own iter trace are not asserted (the library "
+               "writes none), only that the traces below it carry its coordinate, in the right format and order",
                "one perfect loop nest per session (two sibling loops over the same rank restart the stamp at 0)",
                "explicit Metrics.registerRank calls follow the loop order and never name the target rank of a "
                "project (matchRanks has to precede the registration of the target rank)",
@@ -282,6 +290,10 @@ def m_build(inst, key, expr):
         return m_project(inst, key + "prj", *expr[1:])
     if kind == "lshift":
         return m_lshift(inst, key + "<<", expr[1])
+    if kind == "dense":
+        # dense by-reference walk: every coordinate of the range, in order (no element is "read":
+        # the library writes no iter row for such a loop, see check_session)
+        return ((c, n, n) for n, c in enumerate(expr[1]))
     raise AssertionError(expr)
 
 
@@ -412,6 +424,15 @@ def _leaf_tensor(rank, shape, elems, name):
     return t
 
 
+def dense_coords(dense):
+    """Coordinates a dense walk visits (from the spec alone)."""
+    if dense["mode"] == "shape":
+        return list(range(dense["n"]))
+    if dense["mode"] == "active":
+        return list(range(dense["lo"], dense["hi"]))
+    return list(range(dense["lo"], dense["hi"], dense["step"]))
+
+
 class OpProgram:
     def __init__(self, nest):
         assert not Metrics.isCollecting()
@@ -423,18 +444,39 @@ class OpProgram:
         self.has_z = op.startswith("lshift")
         self.inner = "M" if self.proj else "K"
         outer = nest.get("outer")
-        self.driver = _leaf_tensor("X", max([c for c, _ in outer] + [0]) + 1, outer, "D") if outer is not None else None
-        ninst = len([1 for _, v in outer if v != 0]) if outer is not None else 1
+        dense = self.dense = nest.get("dense")
+        self.zout = None
+        if dense is not None:
+            # dense by-reference outer loop over D[X] (leaf) or over the output Z[X, inner] itself
+            self.dense_coords = dense_coords(dense)
+            ninst = len(self.dense_coords)
+            if self.has_z and dense.get("z_outer"):
+                zsh = S if not self.proj else self.proj["mul"] * (S - 1) + self.proj["off"] + 1
+                self.zout = Tensor(rank_ids=["X", self.inner], shape=[dense["n"], zsh], name="Z")
+                for x, _ in outer or []:
+                    for c, v in nest.get("z", []):
+                        ref = self.zout.getRoot().getPayloadRef(x, c)
+                        ref <<= v
+                self.driver = self.zout
+            else:
+                self.driver = _leaf_tensor("X", dense["n"], outer or [], "D")
+            if dense["mode"] == "active":
+                self.driver.getRoot().setActive((dense["lo"], dense["hi"]))
+        else:
+            self.driver = (_leaf_tensor("X", max([c for c, _ in outer] + [0]) + 1, outer, "D")
+                           if outer is not None else None)
+            ninst = len([1 for _, v in outer if v != 0]) if outer is not None else 1
         assert len(nest["inst"]) == ninst
         self.a = [_leaf_tensor("K", S, i["a"], "A") for i in nest["inst"]]
         self.b = [_leaf_tensor("K", S, i.get("b", []), "B") for i in nest["inst"]]
         zshape = S if not self.proj else self.proj["mul"] * (S - 1) + self.proj["off"] + 1
         self.zshape = zshape
-        if self.has_z:
+        if self.has_z and self.zout is None:
             nz = 1 if nest.get("z_shared", True) else ninst
             zs = [_leaf_tensor(self.inner, zshape, nest.get("z", []), "Z") for _ in range(nz)]
             self.z = [zs[i % nz] for i in range(ninst)]
-        self.order = (["X"] if outer is not None else []) + [self.inner]
+        self.cur_z = None
+        self.order = (["X"] if self.driver is not None else []) + [self.inner]
         self.levels = {r: i for i, r in enumerate(self.order)}
         self.traced = list(self.order)
         self.noprereg = set()
@@ -451,6 +493,9 @@ class OpProgram:
 
     def _plan(self, i):
         return self.nest["inst"][i].get("plan", [])
+
+    def _z(self, i):
+        return self.cur_z if self.zout is not None else self.z[i].getRoot()
 
     def _source(self, i):
         a = self._a(i)
@@ -473,13 +518,29 @@ class OpProgram:
             self._instance(0, [], log, on_body=on_outer_body)
             return
         d = self.driver.getRoot()
-        entry = {"rank": "X", "level": 0, "prefix": [], "expr": ["fiber", "d"], "fibers": {"d": snap_fiber(d)},
-                 "z": None, "bodies": [], "outcomes": []}
+        if self.dense is not None:
+            dn = self.dense
+            entry = {"rank": "X", "level": 0, "prefix": [], "expr": ["dense", list(self.dense_coords)], "fibers": {},
+                     "z": None, "bodies": [], "outcomes": [], "dense": True}
+            if dn["mode"] == "shape":
+                it = d.iterShapeRef()
+            elif dn["mode"] == "active":
+                it = d.iterActiveShapeRef()
+            else:
+                it = d.iterRangeShapeRef(dn["lo"], dn["hi"], dn["step"])
+        else:
+            entry = {"rank": "X", "level": 0, "prefix": [], "expr": ["fiber", "d"], "fibers": {"d": snap_fiber(d)},
+                     "z": None, "bodies": [], "outcomes": []}
+            it = d
         log.append(entry)
-        for n, (x, _) in enumerate(d):
+        for n, (x, sub) in enumerate(it):
             entry["bodies"].append(x)
             if n >= len(self.a):
-                raise Violation("bodies", f"the outer loop over D={entry['fibers']['d']} ran a body #{n} at X={x}")
+                raise Violation("bodies", f"the outer loop {entry['expr']} over {entry['fibers']} ran a body #{n} "
+                                f"at X={x}")
+            if self.zout is not None:
+                K._expect_kind(sub, True, f"output fiber delivered by the dense walk at X={x}")
+                self.cur_z = sub
             self._instance(n, [x], log)
             if on_outer_body is not None:
                 on_outer_body()
@@ -493,7 +554,7 @@ class OpProgram:
                  "fibers": {"a": snap_fiber(a), "b": snap_fiber(b)}, "z": None, "bodies": [], "outcomes": []}
         plan = self._plan(i)
         if self.has_z:
-            z = self.z[i].getRoot()
+            z = self._z(i)
             entry["z"] = {"coords": list(z.coords), "compressed": True}
             it = z << src
         else:
@@ -574,6 +635,8 @@ class FlatProgram(OpProgram):
         self.noprereg = set()
         self.cur_a = None
         self.count = 0
+        self.zout = None
+        self.dense = None
 
     def _a(self, i):
         return self.cur_a
@@ -619,7 +682,30 @@ class Session:
         self.loop_order = None
 
 
-def run_session(prog, threshold, prefix, consumable, prereg, consume):
+def stale_session(prog, prefix):
+    """An earlier, unrelated collection under the same prefix (driven through the Metrics API the way
+    test_metrics.py does): every rank is registered and every trace receives one row, so every trace
+    file of the prefix holds a header and a row when the session under test begins."""
+    assert not Metrics.isCollecting()
+    Metrics.beginCollect(prefix)
+    try:
+        for r, shape in getattr(prog, "assoc", []):
+            Metrics.associateShape(r, tuple(shape))
+        for r in prog.traced:
+            for ty in trace_types():
+                Metrics.trace(r, type_=ty)
+            if r not in prog.order:
+                Metrics.matchRanks(r, prog.order[prog.levels[r]])
+        for r in prog.order:
+            Metrics.registerRank(r)
+        for r in prog.traced:
+            for ty in trace_types():
+                Metrics.addUse(r, 1, 7, type_=ty)
+    finally:
+        Metrics.endCollect()
+
+
+def run_session(prog, threshold, prefix, consumable, prereg, consume, reg="file"):
     assert not Metrics.isCollecting()
     res = Session()
     types = trace_types()
@@ -634,9 +720,13 @@ def run_session(prog, threshold, prefix, consumable, prereg, consume):
         Metrics.setNumCachedUses(threshold)
         for r, shape in getattr(prog, "assoc", []):
             Metrics.associateShape(r, tuple(shape))
-        for r, ty in keys:
+        for n, (r, ty) in enumerate(keys):
+            # the file and the consumable form of a trace may be requested in either order
+            cons_first = consumable and (reg == "consumable" or (reg == "mixed" and n % 2 == 1))
+            if cons_first:
+                Metrics.trace(r, type_=ty, consumable=True)
             Metrics.trace(r, type_=ty)
-            if consumable:
+            if consumable and not cons_first:
                 Metrics.trace(r, type_=ty, consumable=True)
         for r in prog.order[:prereg]:
             Metrics.registerRank(r)
@@ -820,12 +910,15 @@ def check_session(prog, ses, cfg, rec, where):
     # -- the stamp columns of the enclosing loop ranks are the stamp of the enclosing body (the
     #    <rank>_pos columns name the iteration of that rank the row belongs to)
     body_stamp = [{point: stamp for stamp, point, _ in traces[(order[lv], "iter")].rows} for lv in range(len(order))]
+    dense_levels = {e["level"] for e in ses.log if e.get("dense")}
     for (r, ty), tr in traces.items():
         level = prog.levels[r]
         if level == 0:
             continue
         for stamp, point, pos in tr.rows:
             outer = body_stamp[level - 1].get(point[:-1])
+            if outer is None and (level - 1) in dense_levels:
+                continue        # a dense by-reference walk writes no iter row of its own
             if outer is None or stamp[:-1] != outer:
                 raise Violation("stamp-prefix", f"trace {r}-{ty}.csv: row stamp={list(stamp)} point={list(point)} "
                                 f"fiber_pos={pos}: the enclosing body at {list(point[:-1])} "
@@ -834,6 +927,11 @@ def check_session(prog, ses, cfg, rec, where):
 
     # -- iter: one row per body
     for r in prog.traced:
+        if prog.levels[r] in dense_levels and r in order:
+            # dense by-reference walk (iter*ShapeRef): the iterator reports its coordinate to Metrics but
+            # reads no element, so the rows of its own iter trace are not asserted (format and stamp order
+            # are); the rows of the ranks below must carry its coordinate (prefix check of every trace)
+            continue
         exp = [(_lin_prefix(prog, i.entry["prefix"]),
                 ("exact", [(_lin(prog, i.entry["level"], c), p, p) for c, p in i.iter_rows], False))
                for i in insts if i.entry["rank"] == r]
@@ -933,13 +1031,15 @@ def check_program(make_prog, cfg, rec, where):
     try:
         ths = cfg["thresholds"]
         prog = make_prog()
-        os.mkdir(os.path.join(root, "s0"))
-        main = run_session(prog, ths[0], os.path.join(root, "s0", "t"), True, cfg["preregister"], cfg["consume"])
+        prog._cfg = cfg
+        # all sessions of a case share one prefix: each one starts on the files its predecessor left
+        prefix = os.path.join(root, "t")
+        if cfg.get("stale"):
+            stale_session(prog, prefix)
+        main = run_session(prog, ths[0], prefix, True, cfg["preregister"], cfg["consume"], cfg.get("reg", "file"))
         insts, traces = check_session(prog, main, cfg, rec, where)
         for n, th in enumerate(ths[1:], 1):
-            os.mkdir(os.path.join(root, f"s{n}"))
-            other = run_session(make_prog(), th, os.path.join(root, f"s{n}", "t"), False, cfg["preregister"],
-                                cfg["consume"])
+            other = run_session(make_prog(), th, prefix, False, cfg["preregister"], cfg["consume"])
             if other.files != main.files:
                 diff = {k: (main.files.get(k), other.files.get(k))
                         for k in sorted(set(main.files) | set(other.files)) if main.files.get(k) != other.files.get(k)}
@@ -965,6 +1065,12 @@ def classify(rec, prog, ses, insts, traces, prefix_cls=""):
     rec.cls("lines>5", maxlines > 5)
     for fam in ["iter"] + FAMILIES:
         rec.cls("rows-" + fam, fam in nonempty)
+    pcfg = getattr(prog, "_cfg", {})
+    unreached = len({e["level"] for e in ses.log}) < len(prog.order) and \
+        max(e["level"] for e in ses.log) + 1 >= pcfg.get("preregister", 0)
+    rec.cls("stale-files-under-prefix", bool(pcfg.get("stale")))
+    rec.cls("stale-files+unreached-rank+consumable-first",
+            bool(pcfg.get("stale")) and unreached and pcfg.get("reg") in ("consumable", "mixed"))
     rec.cls("empty-loop-instance", any(not e["bodies"] for e in ses.log))
     rec.cls("never-entered-rank", len({e["level"] for e in ses.log}) < len(prog.order))
     rec.cls("head-left-under-finger", any(len(role.rows) > len(i.bodies) for i in insts for role in i.roles.values()
@@ -985,7 +1091,9 @@ def configs(draw, nranks, noprereg_last=False):
     top = nranks - (1 if noprereg_last else 0)
     return {"thresholds": ths,
             "preregister": draw(st.sampled_from([0, 0, 0] + list(range(1, top + 1)))),
-            "consume": draw(st.sampled_from(["end", "outer"]))}
+            "consume": draw(st.sampled_from(["end", "outer"])),
+            "stale": draw(st.sampled_from([True, True, False])),
+            "reg": draw(st.sampled_from(["consumable", "file", "mixed"]))}
 
 
 @st.composite
@@ -1043,10 +1151,20 @@ def opnest_cases(draw):
     op = draw(st.sampled_from(OPS + ["project", "project", "lshift"]))
     S = draw(st.sampled_from([2, 3, 4, 4, 5, 6]))
     outer = None
-    if draw(st.sampled_from([True, True, False])):
-        n = draw(st.integers(1, 4))
+    dense = None
+    kind = draw(st.sampled_from(["sparse", "dense", "sparse", "none", "dense"]))
+    if kind != "none":
+        n = draw(st.sampled_from([2, 3, 4, 1]))
         outer = [[x, draw(st.sampled_from([1, 1, 1, 0]))] for x in range(n) if draw(st.sampled_from([True, True, False]))]
-    ninst = len([1 for _, v in outer if v != 0]) if outer is not None else 1
+    if kind == "dense":
+        mode = draw(st.sampled_from(["shape", "active", "range"]))
+        lo = draw(st.sampled_from(list(range(n))))
+        hi = draw(st.sampled_from(list(range(lo + 1, n + 1))))
+        dense = {"mode": mode, "n": n, "lo": lo, "hi": hi, "step": draw(st.sampled_from([1, 1, 2])),
+                 "z_outer": draw(st.sampled_from([True, False]))}
+        ninst = len(dense_coords(dense))
+    else:
+        ninst = len([1 for _, v in outer if v != 0]) if outer is not None else 1
     proj = None
     zshape = S
     if "project" in op:
@@ -1085,6 +1203,8 @@ def opnest_cases(draw):
         if limit is not None and limit >= 0:
             proj["start"] = draw(st.integers(0, limit))
     nest = {"op": op, "shape": S, "outer": outer, "inst": insts, "proj": proj}
+    if dense is not None:
+        nest["dense"] = dense
     if op.startswith("lshift"):
         nest["z"] = draw(leaf_elems(zshape, p_empty=3))
         nest["z_shared"] = draw(st.sampled_from([True, True, False]))
@@ -1099,6 +1219,14 @@ def check_opnest(case, rec):
     classify(rec, prog, ses, insts, traces)
     rec.cls("op-" + nest["op"])
     rec.cls("outer-loop", nest["outer"] is not None)
+    dn = nest.get("dense")
+    rec.cls("dense-ref-outer-loop", dn is not None)
+    if dn is not None:
+        rec.cls("dense-" + dn["mode"])
+        rec.cls("dense-walk-of-the-output", prog.zout is not None)
+        rec.cls("dense-inner-rows-at-nonzero-outer-coordinate",
+                any(t.rows and any(pt[0] != 0 for _, pt, _ in t.rows) for (r, ty), t in traces.items()
+                    if prog.levels[r] == 1))
     rec.cls("dest-prepopulated", bool(nest.get("z")))
     rec.cls("project-start_pos", bool(nest["proj"]) and nest["proj"]["start"] is not None)
     rec.cls("project-interval", bool(nest["proj"]) and nest["proj"]["interval"] is not None)
@@ -1168,9 +1296,9 @@ def enumerate_small(tier):
                                     "inst": [{"a": a, "b": b}]}, "cfg": cfg}
 
 
-PARTS = [Part("kernels", kernel_cases(), check_kernel, n_quick=600, n_thorough=5000),
-         Part("opnests", opnest_cases(), check_opnest, n_quick=750, n_thorough=6000),
-         Part("flattened", flat_cases(), check_flat, n_quick=250, n_thorough=1500),
+PARTS = [Part("kernels", kernel_cases(), check_kernel, n_quick=500, n_thorough=5000),
+         Part("opnests", opnest_cases(), check_opnest, n_quick=700, n_thorough=6000),
+         Part("flattened", flat_cases(), check_flat, n_quick=200, n_thorough=1500),
          Part("small", None, check_opnest, n_quick=0, n_thorough=0, enumerate=enumerate_small,
               exhaustive_note="a & b and z << a (thorough: also leader-follower) over ALL pairs of 1-level fibers of "
                               "shape 3 whose coordinates are absent / explicit zero / non-zero (27 x 27 pairs per "
